@@ -23,7 +23,7 @@ HEX = set('0123456789abcdefABCDEF')
 OCT = set('01234567')
 CTRL = {'a': '\a', 'b': '\b', 'f': '\f', 'n': '\n', 'r': '\r', 't': '\t', 'v': '\v'}
 
-CATALOG_ESC = ['\\x\u0663\u0664', '\\u\u0660\u0660\u0664\u0661', '\\U0000004\u0661', '\\U00110000', '\\U0010ffff', '\\U0010FFFE', '\\uffff', '\\N{DIGIT ONE}', '\\N{ASTERISK}', '\\N{LATIN SMALL LETTER A}', '\\N{REVERSE SOLIDUS}',
+CATALOG_ESC = ['\\x4A', '\\xFF', '\\x2A', '\\x5B', '\\xfF', '\\x\u0663\u0664', '\\u\u0660\u0660\u0664\u0661', '\\U0000004\u0661', '\\U00110000', '\\U0010ffff', '\\U0010FFFE', '\\uffff', '\\N{DIGIT ONE}', '\\N{ASTERISK}', '\\N{LATIN SMALL LETTER A}', '\\N{REVERSE SOLIDUS}',
                '\\u0041', '\\u002a', '\\U0000002a', '\\U00000041', '\\u005c', '\\u005b', '\\x2a', '\\52',
                '\\N{LEFT SQUARE BRACKET}', '\\u00e9', '\\N{NO SUCH NAME}', '\\u004', '\\U0000004', '\\N{DIGIT ONE']
 CATALOG_PRE = ['', '\\', '\\\\', '[', '[!', '*', 'a', '\\\\\\', '@(']
